@@ -38,6 +38,39 @@ theorem items_range_eq (s : RState K V) (a b : Option K) (hs : SInv s) (hsm : Sm
   intro p _
   cases a <;> cases b <;> simp [inBounds, loOK, upOK]
 
+/-- membership form: an entry is yielded iff it is stored and its key satisfies both bounds; the yielded list is
+    strictly ascending (so every entry comes once) -/
+theorem mem_range_iff (s : RState K V) (lo hi : Bound K) (hs : SInv s) (hsm : Small s) :
+    ∃ out, (view s).range Cfg.repaired lo hi = .ok out ∧ SMap.Sorted out ∧
+      ∀ p, p ∈ out ↔ p ∈ abs s ∧ inBounds lo hi p.1 = true := by
+  refine ⟨_, range_eq_filter s lo hi hs hsm, ?_, ?_⟩
+  · exact List.Pairwise.filter _ (toList_sorted s.height s.root none none hs.inv.ord)
+  · intro p; simp [List.mem_filter]
+
+/-- the fully unbounded range is the whole map -/
+theorem range_unbounded_all (s : RState K V) (hs : SInv s) (hsm : Small s) :
+    (view s).range Cfg.repaired .unbounded .unbounded = .ok (abs s) := by
+  rw [range_eq_filter s _ _ hs hsm]
+  congr 1
+  simp [inBounds, loOK, upOK]
+
+/-- cutting an interval at any key `m` loses and duplicates nothing: `[lo, m)` followed by `[m, hi]` is `[lo, hi]` -/
+theorem range_split (s : RState K V) (lo hi : Bound K) (m : K) (hs : SInv s) (hsm : Small s) :
+    ∃ l r w, (view s).range Cfg.repaired lo (.excluded m) = .ok l ∧
+      (view s).range Cfg.repaired (.included m) hi = .ok r ∧
+      (view s).range Cfg.repaired lo hi = .ok w ∧
+      (∀ p, p ∈ w ↔ (p ∈ l ∧ upOK hi p.1 = true) ∨ (p ∈ r ∧ loOK lo p.1 = true)) := by
+  refine ⟨_, _, _, range_eq_filter s _ _ hs hsm, range_eq_filter s _ _ hs hsm, range_eq_filter s _ _ hs hsm, ?_⟩
+  intro p
+  simp only [List.mem_filter, inBounds, loOK, upOK, Bool.and_eq_true, decide_eq_true_eq]
+  constructor
+  · rintro ⟨hm, h1, h2⟩
+    by_cases h : ord p.1 < ord m
+    · exact Or.inl ⟨⟨hm, h1, h⟩, h2⟩
+    · exact Or.inr ⟨⟨hm, by omega, h2⟩, h1⟩
+  · rintro (⟨⟨hm, h1, _⟩, h2⟩ | ⟨⟨hm, _, h2⟩, h1⟩)
+    · exact ⟨hm, h1, h2⟩
+    · exact ⟨hm, h1, h2⟩
 /-- an `ItemIterator` started at the position of `start` with an explicit (borrowed) end bound honours
     that bound's inclusiveness -/
 theorem items_from_key_eq (s : RState K V) (start : K) (e : Bound K) (hs : SInv s) (hsm : Small s) :
